@@ -22,15 +22,16 @@ class Budget(Exception):
     pass
 
 
-def with_budget(fn, limit):
-    """Run fn() under a deterministic line-event budget; raises Budget when exceeded."""
+def with_budget(fn, limit, lines=False):
+    """Run fn() under a deterministic event budget; raises Budget when exceeded.
+    Counts function-call events (cheap); with lines=True also every line event."""
     count = [0]
 
     def tracer(frame, event, arg):
         count[0] += 1
         if count[0] > limit:
             raise Budget()
-        return tracer
+        return tracer if lines else None
 
     old = sys.gettrace()
     sys.settrace(tracer)
@@ -80,6 +81,18 @@ def do_call(element, value, budget=None, copy_value=True):
         return OTHER, exc
     except Exception as exc:  # noqa
         return OTHER, exc
+
+
+def where(exc):
+    """Innermost frame inside the statham package that the exception passed through: 'file.py:function'."""
+    tb = getattr(exc, "__traceback__", None)
+    loc = "?"
+    while tb is not None:
+        fn = tb.tb_frame.f_code.co_filename
+        if "/statham/" in fn:
+            loc = "%s:%s" % (fn.rsplit("/statham/", 1)[1], tb.tb_frame.f_code.co_name)
+        tb = tb.tb_next
+    return loc
 
 
 # --------------------------------------------------------------------------- canonical forms
